@@ -150,11 +150,20 @@ def check_case(case):
         apply_spec(mod, case["spec"])
     except Exception as e:
         return [C.viol("api-rejects-in-domain-input", dict(key, exc=type(e).__name__), {"error": repr(e)[:200]}, case)], b""
+    try:
+        twin = rv.m.Sampler()
+        apply_spec(twin, case["spec"])
+        b_unobserved = C.save(rv.Synth(twin))                # saved without being read by the harness first
+    except Exception:
+        b_unobserved = None
     want = expected_snapshot(mod)
     try:
         b = C.save(rv.Synth(mod))
     except Exception as e:
         return [C.viol("save-raises", dict(key, exc=type(e).__name__), {"error": repr(e)[:200]}, case)], b""
+    if b_unobserved is not None and b_unobserved != b:
+        vs.append(C.viol("file-depends-on-whether-the-object-was-read-first", key,
+                         {"first_difference": C.first_byte_diff(b_unobserved, b)}, case))
     for ctx in ("synth", "clone", "project"):
         try:
             if ctx == "synth":
